@@ -212,7 +212,49 @@ def interval_semantics_prerelease(v) -> bool:
     ops, res, env, comb = _live_triplet(v)
     if ops is None or res is None or comb is None:
         return False
+    if v.get("property") == "C07" and not _rendering_keeps_atoms(ops, (v.get("detail") or {}).get("text")):
+        # the rendered text does not even spell the marker's own atoms (operand order, operator, literal): that is a
+        # rendering defect, whatever the two semantics say about pre-releases
+        return False
     return comb([altsem.obj_eval(o, env, "interval") for o in ops]) == altsem.obj_eval(res, env, "interval")
+
+
+def _rendering_keeps_atoms(operands, text) -> bool:
+    """Every comparison atom of the rendered marker must occur in the text exactly as the object holds it: variable and
+    literal on the sides `reversed` says, with the operator as seen from that side."""
+    if not text:
+        return True
+    from dep_logic.markers.single import MarkerExpression
+    from packaging.markers import Marker
+
+    from .workloads import markers as MW
+
+    reflect = {"<": ">", "<=": ">=", ">": "<", ">=": "<="}   # (the harness' own table, not the library's)
+
+    try:
+        raw = set()
+
+        def collect(ms):
+            for it in ms:
+                if isinstance(it, list):
+                    collect(it)
+                elif isinstance(it, tuple):
+                    lhs, op, rhs = it
+                    raw.add((type(lhs).__name__, lhs.value, op.value, type(rhs).__name__, rhs.value))
+        collect(Marker(text)._markers)
+    except Exception:  # noqa: BLE001
+        return True
+    for m in operands:
+        for a in MW.walk_atoms(m):
+            if not isinstance(a, MarkerExpression):
+                continue
+            if a.reversed:
+                want = ("Value", a.value, reflect.get(a.op, a.op), "Variable", a.name)
+            else:
+                want = ("Variable", a.name, a.op, "Value", a.value)
+            if want not in raw:
+                return False
+    return True
 
 
 @predicate
